@@ -225,11 +225,19 @@ def observe(f, bits):
                 pass
 
 
-DERIVED = ("d_removed", "d_false", "d_slice", "d_concat", "d_copy", "d_mul")
+DERIVED = ("d_removed", "d_false", "d_slice", "d_concat", "d_copy", "d_mul", "d_join", "d_splice", "d_split")
 
 
 def build_derived(desc, recipe, bits=0xFFFF):
-    """A FmtStr whose cells are cells_of_desc(desc), obtained from *observed* parents through public operations."""
+    """A FmtStr whose cells are cells_of_desc(desc), obtained from *observed* parents through public operations.
+    A description with at least one run gives a value with at least one run (several properties quantify over those only)."""
+    f = _build_derived(desc, recipe, bits)
+    if desc and not f.chunks:
+        return build(desc, "chunks")
+    return f
+
+
+def _build_derived(desc, recipe, bits=0xFFFF):
     from curtsies.formatstring import FmtStr, fmtstr
 
     if recipe == "d_removed":
@@ -278,6 +286,36 @@ def build_derived(desc, recipe, bits=0xFFFF):
         parent = build(desc, "chunks")
         observe(parent, bits)
         return parent * 1
+    if recipe == "d_join":
+        # the result of join: single-run parts put together by a separator without runs
+        parts = []
+        for t, a in desc:
+            part = build([[t, a]], "chunks")
+            observe(part, bits)
+            parts.append(part)
+        sep = FmtStr()
+        observe(sep, bits)
+        return sep.join(parts)
+    if recipe == "d_splice":
+        # the result of splice: a placeholder run of the parent replaced by the run that belongs there
+        if not desc:
+            return build(desc, "chunks")
+        i = len(desc) // 2
+        parent = build([list(r) for r in desc[:i]] + [["??", {"fg": 36, "invert": True}]] + [list(r) for r in desc[i + 1 :]], "chunks")
+        piece = build([list(desc[i])], "chunks")
+        observe(parent, bits)
+        observe(piece, bits)
+        s = sum(len(t) for t, _ in desc[:i])
+        return parent.splice(piece, s, s + 2)
+    if recipe == "d_split":
+        # a piece returned by split: the value followed by a separator and a tail, cut at the separator
+        text = "".join(t for t, _ in desc)
+        sep = next((c for c in "|#\x1e" if c not in text), None)
+        if sep is None or not desc:
+            return build(desc, "chunks")
+        parent = build([list(r) for r in desc] + [[sep, {}], ["tail", {"bold": True}]], "chunks")
+        observe(parent, bits)
+        return parent.split(sep)[0]
     raise ValueError(recipe)
 
 
